@@ -359,7 +359,24 @@ def run_case(case, ctx):
             # and after the block under test: nothing may be shared between instances
             edzed.Timer('decoy_t1', t_on=555.0, t_off='7m')
             edzed.InputExp('decoy_i1', duration=555.0, expired='dx', initdef='d1')
+        if case.get('failing_stops'):
+            # other blocks whose stop() fails ("logged, but otherwise ignored"), created before
+            # and after the FSM (the stop order of blocks without asynchronous clean-up is
+            # undefined): the FSM is stopped - its timer cancelled - all the same
+            class BadStop(edzed.SBlock):
+                def init_regular(self):
+                    self.set_output(0)
+
+                def stop(self):
+                    super().stop()
+                    raise KeyError('vf: stop() fault')
+            keep = [BadStop(f"badstop{k}") for k in range(4)]
+            core.perturb_addresses(ctx.rng('badstop', case.get('failing_stops')), keep)
+            ctx.count('cases_with_failing_stop_of_other_blocks')
         fsm = build_block(edzed, spec, hist, probes)
+        if case.get('failing_stops'):
+            for k in range(4, 8):
+                BadStop(f"badstop{k}")
         if case.get('decoys'):
             edzed.Timer('decoy_t2', t_period=1554.0, initdef='on')
             edzed.InputExp('decoy_i2', duration='12m57s', expired='dx', initdef='d2')
@@ -892,7 +909,7 @@ def fix_model_init(spec):
 def gen(ctx):
     quick = ctx.tier == 'quick'
     rng = ctx.rng('gen')
-    n = 700 if quick else 36000
+    n = 1600 if quick else 36000
     for i in range(n):
         r = rng.random()
         if r < 0.55:
@@ -905,6 +922,8 @@ def gen(ctx):
                 'tail': rng.choice(['after', 'pending', 'pending', 'long'])}
         if rng.random() < 0.1:
             case['double_stop'] = True
+        if rng.random() < 0.12:
+            case['failing_stops'] = rng.randrange(1, 1000)
         if spec['kind'] in ('timer', 'inputexp') and rng.random() < 0.4:
             case['decoys'] = True
         if rng.random() < 0.1 and spec['watch']:
